@@ -1,0 +1,125 @@
+//go:build verif
+
+// Machine-checked contracts (gowp, see /verif/DESIGN.md). Comment-only file:
+// nothing here is compiled into the package.
+
+package leveldbstorage
+
+// ---- the leveldb wrapper (trusted: goleveldb is outside the verifier) -----------------
+//
+// exfound: outcome of the last Exists (1 found, 0 not found, 2 error)
+//@ ghost exfound int
+//@ func (*Storage).Get
+//@   trusted
+//@   pure
+//@ func (*Storage).Exists
+//@   trusted
+//@   modifies ghost:exfound
+//@   ensures r1 == nil ==> exfound == ite(r0, 1, 0)
+//@   ensures r1 != nil ==> exfound == 2
+//@ func (*Storage).Put
+//@   trusted
+//@   modifies *
+//@ func (*Storage).Delete
+//@   trusted
+//@   modifies *
+//@ func (*Storage).Batch
+//@   trusted
+//@   modifies *
+//@ func (*Storage).Iter
+//@   trusted
+//@   loops callback(ik, ib) -> keep, ierr
+//@   where r != nil ==> ((r.Start == nil || len(r.Start) == 0) || (len(ik) >= 0))
+//@   until !keep || ierr != nil
+
+// ---- C25: a prefix storage touches only keys under its prefix ---------------------------
+//
+// key(b) = prefix ‖ b (nil when the storage is closed or b is empty): every key
+// that reaches the underlying storage starts with the prefix and is longer
+// than it.
+//@ lemma csum12 (C25): forall(bytesarr(a), o, unfold(csum(a, o, 0)) && unfold(csum(a, o, 1)) && unfold(csum(a, o, 2)) ==> csum(a, o, 0) == 0 && csum(a, o, 1) == len(a[o]) && csum(a, o, 2) == len(a[o]) + len(a[o+1]))
+//@ axiom csum0use (C25 lemma csum12): forall(bytesarr(a), o, trigger(csum(a, o, 0)), csum(a, o, 0) == 0)
+//@ axiom csum1use (C25 lemma csum12): forall(bytesarr(a), o, trigger(csum(a, o, 1)), csum(a, o, 1) == len(a[o]))
+//@ axiom csum2use (C25 lemma csum12): forall(bytesarr(a), o, trigger(csum(a, o, 2)), csum(a, o, 2) == len(a[o]) + len(a[o+1]))
+
+//@ func (*PrefixStorage).key
+//@   prop C25
+//@   requires st != nil && len(st.prefix) < 1099511627776 && len(b) < 1099511627776
+//@   ensures [closed] st.prefix == nil || len(b) < 1 ==> r0 == nil
+//@   ensures [nonempty] sreg(r0) != 0 ==> len(r0) >= 1
+//@   ensures [open] st.prefix != nil && len(b) >= 1 ==> sreg(r0) != 0
+//@   ensures [prefixed] len(r0) > 0 ==> len(r0) == len(st.prefix) + len(b) && len(b) >= 1 && forall(i, 0 <= i && i < len(st.prefix) ==> r0[i] == st.prefix[i]) && forall(i, 0 <= i && i < len(b) ==> r0[len(st.prefix) + i] == b[i])
+
+//@ func (*PrefixStorage).origkey
+//@   prop C25
+//@   requires st != nil && st.prefixlen >= 0
+//@   ensures r1 == nil && len(b) >= 1 ==> sreg(r0) == sreg(b) && soff(r0) == soff(b) + st.prefixlen && len(r0) == len(b) - st.prefixlen
+
+//@ func (*PrefixStorage).Get
+//@   prop C25
+//@   pure
+//@   requires st != nil && len(st.prefix) < 1099511627776 && len(key) < 1099511627776 && st.Storage != nil
+//@   callsite Get requires len(a0) > len(st.prefix) && forall(i, 0 <= i && i < len(st.prefix) ==> a0[i] == st.prefix[i]) && forall(i, 0 <= i && i < len(key) ==> a0[len(st.prefix) + i] == key[i])
+
+//@ func (*PrefixStorage).Exists
+//@   prop C25
+//@   requires st != nil && len(st.prefix) < 1099511627776 && len(key) < 1099511627776 && st.Storage != nil
+//@   modifies ghost:exfound
+//@   ensures r1 == nil ==> exfound == ite(r0, 1, 0)
+//@   callsite Exists requires len(a0) > len(st.prefix) && forall(i, 0 <= i && i < len(st.prefix) ==> a0[i] == st.prefix[i]) && forall(i, 0 <= i && i < len(key) ==> a0[len(st.prefix) + i] == key[i])
+
+//@ func (*PrefixStorage).Put
+//@   prop C25
+//@   requires st != nil && len(st.prefix) < 1099511627776 && len(key) < 1099511627776 && st.Storage != nil
+//@   modifies *
+//@   callsite Put requires len(a0) > len(st.prefix) && forall(i, 0 <= i && i < len(st.prefix) ==> a0[i] == st.prefix[i]) && forall(i, 0 <= i && i < len(key) ==> a0[len(st.prefix) + i] == key[i]) && a1 == b
+
+//@ func (*PrefixStorage).Delete
+//@   prop C25
+//@   requires st != nil && len(st.prefix) < 1099511627776 && len(key) < 1099511627776 && st.Storage != nil
+//@   modifies *
+//@   callsite Delete requires len(a0) > len(st.prefix) && forall(i, 0 <= i && i < len(st.prefix) ==> a0[i] == st.prefix[i]) && forall(i, 0 <= i && i < len(key) ==> a0[len(st.prefix) + i] == key[i])
+
+//@ func (*PrefixStorage).NewBatch
+//@   prop C25
+//@   requires st != nil
+//@   ensures r0 != nil && r0.prefix == st.prefix && r0.Batch != nil
+
+// goleveldb's batch: trusted (package github.com/syndtr/goleveldb/leveldb)
+//@ package github.com/syndtr/goleveldb/leveldb
+// (the batch's own content is opaque to the verifier: no modelled state changes)
+//@ func (*Batch).Put
+//@   trusted
+//@ func (*Batch).Delete
+//@   trusted
+//@ func (*Batch).Reset
+//@   trusted
+//@ func (*Batch).Len
+//@   trusted
+//@   pure
+//@ package github.com/spikeekips/mitum/storage/leveldb
+
+//@ func (*PrefixStorageBatch).Put
+//@   prop C25
+//@   requires b != nil && b.Batch != nil && len(b.prefix) < 1099511627776 && len(key) < 1099511627776
+//@   callsite Put requires len(a0) >= len(b.prefix) && forall(q, 0 <= q && q < len(b.prefix) ==> a0[q] == b.prefix[q]) && forall(q, 0 <= q && q < len(key) ==> a0[len(b.prefix) + q] == key[q]) && a1 == i
+
+//@ func (*PrefixStorageBatch).Delete
+//@   prop C25
+//@   requires b != nil && b.Batch != nil && len(b.prefix) < 1099511627776 && len(key) < 1099511627776
+//@   callsite Delete requires len(a0) >= len(b.prefix) && forall(q, 0 <= q && q < len(b.prefix) ==> a0[q] == b.prefix[q]) && forall(q, 0 <= q && q < len(key) ==> a0[len(b.prefix) + q] == key[q])
+
+// not verified here (range rewriting over goleveldb iterators, batches): trusted
+// as seen by the callers in isaac/database
+//@ func (*PrefixStorage).Iter
+//@   trusted
+//@   loops callback(ik, ib) -> keep, ierr
+//@   until !keep || ierr != nil
+//@ func (*PrefixStorage).Batch
+//@   trusted
+//@   modifies *
+//@ func (*PrefixStorageBatch).Reset
+//@   trusted
+//@ func (*PrefixStorageBatch).Len
+//@   trusted
+//@   pure
